@@ -287,4 +287,55 @@ func init() {
 			}
 		},
 	})
+
+	register(&Rule{
+		ID: "adaptive.no-integer-product", Props: []string{"C11"}, Floor: 3,
+		Doc: "in the CalculateAllowedTokens implementations of core/flow and the core/flow functions they call, no product of two non-constant integer operands is formed: thresholds, water marks and memory readings are 64-bit configuration / measurement values whose integer product can wrap (valid rules allow it), after which the effective threshold leaves the configured envelope; the arithmetic is done in float64",
+		Run: func(c *Ctx) {
+			calcI := c.P.Named("core/flow.TrafficShapingCalculator")
+			if calcI == nil {
+				c.AnchorLost("flow.TrafficShapingCalculator")
+				return
+			}
+			impls := c.P.Implementations(calcI.Underlying().(*types.Interface), "CalculateAllowedTokens")
+			seen := map[*ssa.Function]bool{}
+			var walk func(f *ssa.Function, d int)
+			walk = func(f *ssa.Function, d int) {
+				if f == nil || d > 3 || seen[f] || relPkg(fnPkgPath(f)) != "core/flow" || f.Blocks == nil {
+					return
+				}
+				seen[f] = true
+				for _, ci := range callsIn(f) {
+					walk(ci.Common().StaticCallee(), d+1)
+				}
+			}
+			for _, f := range impls {
+				walk(f, 0)
+			}
+			var fs []*ssa.Function
+			for f := range seen {
+				fs = append(fs, f)
+			}
+			sort.Slice(fs, func(i, j int) bool { return fnKey(fs[i]) < fnKey(fs[j]) })
+			for _, f := range fs {
+				bad, nf := "", 0
+				eachInstr(f, func(ins ssa.Instruction) {
+					b, ok := ins.(*ssa.BinOp)
+					if !ok || b.Op != token.MUL {
+						return
+					}
+					if !isIntegerT(b.Type()) {
+						nf++
+						return
+					}
+					_, cx := b.X.(*ssa.Const)
+					_, cy := b.Y.(*ssa.Const)
+					if !cx && !cy {
+						bad = c.P.Pos(b.Pos()) + ": " + accessPath(b)
+					}
+				})
+				c.Check(bad == "", fnKey(f)+" / no-integer-product", f.Pos(), "%d floating-point product(s); integer product of two variables: %q", nf, bad)
+			}
+		},
+	})
 }
